@@ -11,6 +11,7 @@ package main
 
 import (
 	"bufio"
+	"encoding/binary"
 	"encoding/json"
 	"flag"
 	"fmt"
@@ -48,11 +49,26 @@ var tiers = map[string]map[string]tierCfg{
 
 var raceProps = map[string]bool{"C13": true, "C14": true}
 
+type aggT struct {
+	Evals     int64            `json:"evals"`
+	Steps     int64            `json:"steps"`
+	Switches  int64            `json:"switches"`
+	Contended int64            `json:"contended"`
+	FakeNs    int64            `json:"fake_ns"`
+	Tasks     int64            `json:"tasks"`
+	Inconcl   int64            `json:"inconclusive"`
+	Leaked    int64            `json:"leaked"`
+	Outcomes  map[string]int64 `json:"outcomes"`
+	Counters  map[string]int64 `json:"counters"`
+	InconclEx []string         `json:"inconclusive_examples,omitempty"`
+}
+
 type line struct {
 	Kind    string          `json:"kind"`
 	Seed    int64           `json:"seed"`
 	Res     *harness.Result `json:"res,omitempty"`
 	Case    *harness.Case   `json:"case,omitempty"`
+	Agg     *aggT           `json:"agg,omitempty"`
 	Runs    int             `json:"runs,omitempty"`
 	Elapsed float64         `json:"elapsed_s,omitempty"`
 }
@@ -290,7 +306,7 @@ func main() {
 
 	writeEvidence(prop, *tier, seed, sw, cfg, workers, genReport, raceInfo, reported, len(knownPrinted), time.Since(start))
 	fmt.Printf("%s %s: %d cases, %d distinct non-trivial, %d steps, %d violations reported, %d known findings, %.1fs\n",
-		prop, *tier, sw.evals, len(sw.shapes), sw.steps, reported, len(knownPrinted), time.Since(start).Seconds())
+		prop, *tier, sw.evals, sw.nShapes, sw.steps, reported, len(knownPrinted), time.Since(start).Seconds())
 	cleanup()
 	os.Exit(exit)
 }
@@ -355,6 +371,34 @@ type sweepResult struct {
 	nviolRaw   int64
 	nknownCand int64
 	knownCands []*violation
+	nShapes    int
+	nTraces    int
+	inconclEx  []string
+}
+
+func appendHashes(dst []uint64, path string) []uint64 {
+	b, err := os.ReadFile(path)
+	if err != nil {
+		return dst
+	}
+	for i := 0; i+8 <= len(b); i += 8 {
+		dst = append(dst, binary.LittleEndian.Uint64(b[i:]))
+	}
+	return dst
+}
+
+func countDistinct(h []uint64) int {
+	if len(h) == 0 {
+		return 0
+	}
+	sort.Slice(h, func(i, j int) bool { return h[i] < h[j] })
+	n := 1
+	for i := 1; i < len(h); i++ {
+		if h[i] != h[i-1] {
+			n++
+		}
+	}
+	return n
 }
 
 type proc struct {
@@ -494,37 +538,39 @@ func sweep(prop, tier, bin string, base int64, cfg tierCfg, workers int, deadlin
 			hangs = append(hangs, hangInfo{w, "crashed " + p.lastHB + "\n" + tail})
 		}
 	}
+	var shapeHashes, traceHashes []uint64
 	for w := range procs {
 		readLines(filepath.Join(scratch, fmt.Sprintf("out.%d.jsonl", w)), func(l *line) {
 			switch l.Kind {
-			case "case", "violation", "known-candidate":
-				r := l.Res
-				sr.evals++
-				sr.steps += int64(r.Steps)
-				sr.switches += int64(r.Switches)
-				sr.contended += int64(r.Contended)
-				sr.fakeNs += r.FakeNs
-				sr.tasks += int64(r.Tasks)
-				sr.outcomes[r.Outcome]++
-				if r.Nontrivial {
-					sr.shapes[r.Shape] = struct{}{}
+			case "agg":
+				g := l.Agg
+				sr.evals += g.Evals
+				sr.steps += g.Steps
+				sr.switches += g.Switches
+				sr.contended += g.Contended
+				sr.fakeNs += g.FakeNs
+				sr.tasks += g.Tasks
+				sr.inconcl += g.Inconcl
+				sr.leaked += g.Leaked
+				for k, v := range g.Outcomes {
+					sr.outcomes[k] += v
 				}
-				sr.traces[r.LogHash] = struct{}{}
-				for k, v := range r.Counters {
+				for k, v := range g.Counters {
 					if strings.HasSuffix(k, "_max") {
-						if int64(v) > sr.counters[k] {
-							sr.counters[k] = int64(v)
+						if v > sr.counters[k] {
+							sr.counters[k] = v
 						}
 						continue
 					}
-					sr.counters[k] += int64(v)
+					sr.counters[k] += v
 				}
-				if r.Inconclusive != "" {
-					sr.inconcl++
+				for _, ex := range g.InconclEx {
+					if len(sr.inconclEx) < 5 {
+						sr.inconclEx = append(sr.inconclEx, ex)
+					}
 				}
-				if r.Leaked {
-					sr.leaked++
-				}
+			case "case", "violation", "known-candidate":
+				r := l.Res
 				if l.Kind == "violation" {
 					sr.nviolRaw++
 					sr.violations = append(sr.violations, &violation{seed: l.Seed, c: l.Case, res: r})
@@ -539,7 +585,11 @@ func sweep(prop, tier, bin string, base int64, cfg tierCfg, workers int, deadlin
 				}
 			}
 		})
+		shapeHashes = appendHashes(shapeHashes, filepath.Join(scratch, fmt.Sprintf("out.%d.jsonl.shapes", w)))
+		traceHashes = appendHashes(traceHashes, filepath.Join(scratch, fmt.Sprintf("out.%d.jsonl.traces", w)))
 	}
+	sr.nShapes = countDistinct(shapeHashes)
+	sr.nTraces = countDistinct(traceHashes)
 	sr.wall = time.Since(t0).Seconds()
 	if len(sr.samples) == 0 && len(sr.violations) > 0 {
 		sr.samples = append(sr.samples, map[string]any{"case": sr.violations[0].c, "result": sr.violations[0].res})
@@ -762,7 +812,7 @@ func writeEvidence(prop, tier string, seed int64, sr *sweepResult, cfg tierCfg, 
 	}
 	cov := map[string]any{
 		"evaluations":         sr.evals,
-		"distinct_nontrivial": len(sr.shapes),
+		"distinct_nontrivial": sr.nShapes,
 		"rule": "one evaluation = one simulated run of a case generated from seed VERIF_SEED*2^20+i; a case is non-trivial when its run contained at least one context switch or one injected fault/event that fired (per-property rule in DESIGN.md section 5); distinct = distinct hash of (workload, scheduling log, fired events)",
 		"samples":                    sr.samples,
 		"simulated_runs_per_hour":    perHour,
@@ -772,11 +822,12 @@ func writeEvidence(prop, tier string, seed int64, sr *sweepResult, cfg tierCfg, 
 		"lock_contention_events":     sr.contended,
 		"tasks_run":                  sr.tasks,
 		"simulated_time_s":           float64(sr.fakeNs) / 1e9,
-		"distinct_interleavings":     len(sr.traces),
+		"distinct_interleavings":     sr.nTraces,
 		"distinct_measure":           "distinct FNV hashes of the per-run scheduling log (step, task id, yield kind)",
 		"fault_and_probe_counts":     sr.counters,
 		"outcomes":                   sr.outcomes,
 		"inconclusive_runs":          sr.inconcl,
+		"inconclusive_examples":      sr.inconclEx,
 		"runs_with_leaked_goroutine": sr.leaked,
 		"violations_before_grouping": sr.nviolRaw,
 		"known_finding_candidates":   sr.nknownCand,
@@ -849,7 +900,7 @@ func selftest(props []string) int {
 		var procs []*proc
 		for i := 0; i < nProc; i++ {
 			workerProcs = []string{"1", "4", "16"}[i%3]
-			extra := []string{fmt.Sprintf("VERIF_SEED_BASE=%d", base), fmt.Sprintf("VERIF_COUNT=%d", nSeeds), "VERIF_OFFSET=0", "VERIF_STRIDE=1", "VERIF_MODE=sweep", "VERIF_MAX_VIOL=1000000"}
+			extra := []string{fmt.Sprintf("VERIF_SEED_BASE=%d", base), fmt.Sprintf("VERIF_COUNT=%d", nSeeds), "VERIF_OFFSET=0", "VERIF_STRIDE=1", "VERIF_MODE=sweep", "VERIF_MAX_VIOL=1000000", "VERIF_EMIT_CASES=1"}
 			procs = append(procs, startWorker(prop, "quick", bin, extra, filepath.Join(scratch, fmt.Sprintf("st.%s.%d.jsonl", prop, i)), filepath.Join(scratch, fmt.Sprintf("st.%s.%d.hb", prop, i))))
 			if len(procs)%16 == 0 {
 				for _, p := range procs[len(procs)-16:] {
